@@ -2630,6 +2630,29 @@ func (c *ChannelArbitrator) resolveContract(currentContract ContractResolver) {
 	log.Tracef("ChannelArbitrator(%v): attempting to resolve %T",
 		c.cfg.ChanPoint, currentContract)
 
+	// A contract that was reloaded from the log already marked as resolved
+	// was checkpointed with its final state, but we went down before it
+	// could be removed from the log. Remove it now and signal the main
+	// goroutine, otherwise the set of unresolved contracts never becomes
+	// empty and the channel never leaves StateWaitingFullResolution.
+	if currentContract.IsResolved() {
+		log.Debugf("ChannelArbitrator(%v): contract %T already "+
+			"resolved, removing it from the log", c.cfg.ChanPoint,
+			currentContract)
+
+		err := c.log.ResolveContract(currentContract)
+		if err != nil {
+			log.Errorf("unable to resolve contract: %v", err)
+		}
+
+		select {
+		case c.resolutionSignal <- struct{}{}:
+		case <-c.quit:
+		}
+
+		return
+	}
+
 	// Until the contract is fully resolved, we'll continue to iteratively
 	// resolve the contract one step at a time.
 	for !currentContract.IsResolved() {
